@@ -27,7 +27,7 @@ COMPONENTS_STUB = ["RandomSource.randint/random_float (SimRandom, stream R)", "s
 ASSUMPTIONS = ["predicates transcribed from the metahandler docstrings; IntervalRange(lo,hi,top): lo <= v[1]-v[0] <= hi and v[1] <= top, closed",
                "a Dependent refinement's predicate is that of the refinement its function returns for the actual sibling values"]
 
-FEAT = features(refined=8, annlist=4, list=1, union=2, tuple=1, dependent=2, flaky=1, interval=2, cls=4, int=1, float=1, str=1, bool=1, concrete_start=1, multi_dependent=1, nested_list=1, falsy=1, future_annotations=1)
+FEAT = features(refined=8, annlist=4, list=1, union=2, tuple=1, dependent=2, flaky=1, interval=2, cls=4, int=1, float=1, str=1, bool=1, concrete_start=1, multi_dependent=1, nested_list=1, falsy=1, future_annotations=1, shared_handlers=1)
 
 
 def budget(tier):
